@@ -1,5 +1,6 @@
 import RexModel.Async.Machine
 import RexModel.Async.Pipeline
+import RexModel.Async.FullPipe
 import Mathlib.Algebra.Order.Field.Basic
 import Mathlib.Tactic.Linarith
 import Mathlib.Order.Monotone.Basic
@@ -279,6 +280,56 @@ theorem C03_consumption_is_arrival_prefix {T : Type} [TimeLike T] (cfg : Cfg T) 
 /-- nothing is consumed before the episode starts -/
 theorem C03_pipe_init {T : Type} [TimeLike T] (cfg : Cfg T) (c : Nat) : pipe c (initState cfg) = [] := by
   simp [pipe, initState, seqsRec, seqsOf]
+
+theorem prefix_upTo (l : List Int) (k : Nat) (h : l <+: upTo k) : l = upTo l.length := by
+  obtain ⟨t, ht⟩ := h
+  have hlen : l.length ≤ k := by
+    have := congrArg List.length ht
+    simp [upTo] at this; omega
+  apply List.ext_getElem
+  · simp [upTo]
+  · intro i h1 h2
+    have h3 : i < (upTo k).length := by simp [upTo]; omega
+    have h4 : i < (l ++ t).length := by simp; omega
+    have e1 : (l ++ t)[i] = l[i] := List.getElem_append_left h1
+    have e2 : (l ++ t)[i] = (upTo k)[i] := by simp only [ht]
+    rw [← e1, e2]
+    simp [upTo]
+
+/-- **Gap-free sequence numbers from 0, under every schedule** (machine level): in every reachable state the steps a node has
+recorded carry the sequence numbers `0, 1, …, n-1` in this order. -/
+theorem C03_node_seq_gapfree {T : Type} [TimeLike T] (cfg : Cfg T) (n : Nat) {σ : List Rule} {s : MSt T}
+    (h : Rex.Conf.Run (machine cfg).toNet.sys (initState cfg) σ s) :
+    recTicks (s.q (.node n .record)) = upTo (recTicks (s.q (.node n .record))).length := by
+  have hi := tickInv_run cfg h (tickInv_init cfg) n
+  apply prefix_upTo _ (s.priv (.sched n)).tick
+  rw [← hi]
+  unfold tickLine
+  rw [List.append_assoc, List.append_assoc]
+  exact List.prefix_append _ _
+
+/-- **Exactly once, in order, end to end, under every schedule** (machine level): for a connection listed once among its
+sender's outputs, in every reachable state the messages recorded as consumed carry the sequence numbers `0, 1, …, m-1` in this
+order — nothing the sender emitted is lost, duplicated or reordered on the way to the receiver's record, whatever the
+interleaving of the sender's, the connection's and the receiver's threads. -/
+theorem C03_exactly_once_in_order {T : Type} [TimeLike T] (cfg : Cfg T) (c : Nat) (hwf : WFConn cfg c) {σ : List Rule} {s : MSt T}
+    (h : Rex.Conf.Run (machine cfg).toNet.sys (initState cfg) σ s) :
+    seqsRec (s.q (.conn c .record)) = upTo (seqsRec (s.q (.conn c .record))).length := by
+  have hp := pipeInv_run cfg c hwf h (pipeInv_init cfg c)
+  have hn := C03_node_seq_gapfree cfg (cfg.src c) h
+  unfold PipeInv fullPipe at hp
+  apply prefix_upTo _ (recTicks (s.q (.node (cfg.src c) .record))).length
+  rw [← hn, ← hp, List.append_assoc, List.append_assoc]
+  exact List.prefix_append _ _
+
+/-- … and every message still under way continues that numbering: the whole pipeline of the connection is `0, 1, …` -/
+theorem C03_pipeline_numbering {T : Type} [TimeLike T] (cfg : Cfg T) (c : Nat) (hwf : WFConn cfg c) {σ : List Rule} {s : MSt T}
+    (h : Rex.Conf.Run (machine cfg).toNet.sys (initState cfg) σ s) :
+    fullPipe c s = upTo (fullPipe c s).length := by
+  have hp := pipeInv_run cfg c hwf h (pipeInv_init cfg c)
+  have hn := C03_node_seq_gapfree cfg (cfg.src c) h
+  unfold PipeInv at hp
+  rw [hp]; exact hn
 
 -- non-vacuity: a FIFO queue with a tie on a skipped connection
 example : mayConsume (α := ℚ) false 1 1 ∧ ¬ mayConsume (α := ℚ) true 1 1 := by
